@@ -23,8 +23,21 @@ var genericTags = []string{"STATELABEL", "TRIGCOUPLING", "GROUPTRIGGER", "MIX", 
 var nosaveTags = []string{"CHANNELNAMES", "ALIVE", "TRIGGERRATE", "NUMBERWRITTEN", "TESMAP", "EXTERNALTRIGGER", "TriggerRate"}
 var oddTags = []string{"NEWDASTARD", "CURRENTTIME", "___1", "___3"}
 
+// zi / zf / zb: a drawn value, but zero (false) one time in three: the zero value of a field is where a
+// "default when missing" rule applied at the wrong moment shows
+func zi(r *lib.Rng, lo, hi int) int {
+	if r.Chance(1, 3) {
+		return 0
+	}
+	return r.Range(lo, hi)
+}
+func zb(r *lib.Rng) bool { return r.Chance(1, 3) }
+
 func ints(r *lib.Rng, maxLen, lo, hi int) []int {
 	n := r.Intn(maxLen + 1)
+	if r.Chance(1, 3) {
+		n = 0
+	}
 	out := make([]int, n) // never nil: a nil slice is written as [] and read back as an empty one
 	for i := range out {
 		out[i] = r.Range(lo, hi)
@@ -43,8 +56,11 @@ func word(r *lib.Rng) string {
 }
 
 func unwrapOpts(r *lib.Rng) dastard.AbacoUnwrapOptions {
-	return dastard.AbacoUnwrapOptions{RescaleRaw: r.Bool(), Unwrap: r.Bool(), Bias: r.Bool(),
-		ResetAfter: r.Range(0, 40000), PulseSign: r.Range(-1, 1), InvertChan: ints(r, 3, 0, 63)}
+	if r.Chance(1, 5) { // unwrapping switched off, everything else left at zero
+		return dastard.AbacoUnwrapOptions{RescaleRaw: r.Bool(), InvertChan: []int{}}
+	}
+	return dastard.AbacoUnwrapOptions{RescaleRaw: r.Bool(), Unwrap: zb(r), Bias: zb(r),
+		ResetAfter: zi(r, 1, 40000), PulseSign: r.Range(-1, 1), InvertChan: ints(r, 3, 0, 63)}
 }
 
 func floats(r *lib.Rng, maxLen int) []float64 {
@@ -66,11 +82,14 @@ func strs(r *lib.Rng, maxLen int) []string {
 }
 
 func triggerState(r *lib.Rng) dastard.TriggerState {
+	if r.Chance(1, 6) {
+		return dastard.TriggerState{} // everything off and zero
+	}
 	ts := dastard.TriggerState{
-		AutoTrigger: r.Bool(), AutoDelay: time.Duration(r.Range(0, 2000)) * time.Millisecond,
-		AutoVetoRange: dastard.RawType(r.Range(0, 500)),
-		LevelTrigger:  r.Bool(), LevelRising: r.Bool(), LevelLevel: dastard.RawType(r.Range(0, 65535)),
-		EdgeTrigger: r.Bool(), EdgeRising: r.Bool(), EdgeFalling: r.Bool(), EdgeLevel: int32(r.Range(-300, 300)),
+		AutoTrigger: zb(r), AutoDelay: time.Duration(zi(r, 1, 2000)) * time.Millisecond,
+		AutoVetoRange: dastard.RawType(zi(r, 1, 500)),
+		LevelTrigger:  zb(r), LevelRising: r.Bool(), LevelLevel: dastard.RawType(zi(r, 1, 65535)),
+		EdgeTrigger: zb(r), EdgeRising: r.Bool(), EdgeFalling: r.Bool(), EdgeLevel: int32(zi(r, -300, 300)),
 		EdgeMulti: r.Chance(1, 4),
 	}
 	if ts.EdgeMulti {
@@ -89,13 +108,13 @@ func typedValue(r *lib.Rng, tag string) json.RawMessage {
 	switch tag {
 	case "SIMPULSE":
 		return raw(dastard.SimPulseSourceConfig{Nchan: r.Range(1, 16), SampleRate: float64(r.Range(1, 400)) * 250,
-			Pedestal: float64(r.Range(0, 8000)) / 2, Amplitudes: floats(r, 3), Nsamp: r.Range(1, 4000)})
+			Pedestal: float64(zi(r, 0, 8000)) / 2, Amplitudes: floats(r, 3), Nsamp: zi(r, 1, 4000)})
 	case "TRIANGLE":
 		return raw(dastard.TriangleSourceConfig{Nchan: r.Range(1, 16), SampleRate: float64(r.Range(1, 400)) * 250,
-			Min: dastard.RawType(r.Range(0, 1000)), Max: dastard.RawType(r.Range(1000, 65535))})
+			Min: dastard.RawType(zi(r, 0, 1000)), Max: dastard.RawType(r.Pick([]int{0, 1000, r.Range(1000, 65535)}))})
 	case "LANCERO":
-		return raw(dastard.LanceroSourceConfig{FiberMask: uint32(r.U64()), CardDelay: ints(r, 3, 0, 30),
-			ActiveCards: ints(r, 3, 0, 3), ShouldAutoRestart: r.Bool(), FirstRow: r.Range(0, 2),
+		return raw(dastard.LanceroSourceConfig{FiberMask: uint32(zi(r, 1, 1<<31)), CardDelay: ints(r, 3, 0, 30),
+			ActiveCards: ints(r, 3, 0, 3), ShouldAutoRestart: zb(r), FirstRow: r.Range(0, 2),
 			ChanSepCards: r.Pick([]int{0, 1000, 10000}), ChanSepColumns: r.Pick([]int{0, 100, 1000}),
 			DastardOutput: dastard.LanceroDastardOutputJSON{Nsamp: r.Range(1, 16), ClockMHz: r.Pick([]int{50, 125}),
 				AvailableCards: ints(r, 3, 0, 3), Lsync: r.Range(20, 400), Settle: r.Range(0, 100),
@@ -111,12 +130,12 @@ func typedValue(r *lib.Rng, tag string) json.RawMessage {
 			groups[i] = dastard.GroupIndex{Firstchan: i * 100, Nchan: r.Range(1, 64)}
 		}
 		ns := r.Range(2, 10000) // as ConfigurePulseLengths accepts them: 0 < Npresamp < Nsamples
-		return raw(dastard.ServerStatus{Running: r.Bool(), SourceName: pickS(r, []string{"", "Triangles", "SimPulses", "Lancero", "Abaco"}),
-			Nchannels: r.Range(0, 64), Nsamples: ns, Npresamp: r.Range(1, ns-1),
+		return raw(dastard.ServerStatus{Running: zb(r), SourceName: pickS(r, []string{"", "Triangles", "SimPulses", "Lancero", "Abaco"}),
+			Nchannels: zi(r, 1, 64), Nsamples: ns, Npresamp: r.Range(1, ns-1),
 			SamplePeriod: time.Duration(r.Range(1, 100000)) * time.Nanosecond, ChanGroups: groups,
 			ChannelsWithProjectors: ints(r, 3, 0, 63)})
 	case "WRITING":
-		return raw(map[string]interface{}{"Active": r.Bool(), "Paused": r.Bool(), "BasePath": "/data/" + word(r),
+		return raw(map[string]interface{}{"Active": zb(r), "Paused": zb(r), "BasePath": pickS(r, []string{"", "/data/" + word(r), "/data/" + word(r)}),
 			"FilenamePattern": "%s/" + word(r), "WriteLJH22": r.Bool(), "WriteOFF": r.Bool(), "WriteLJH3": r.Bool(),
 			"ExperimentStateFilename": word(r), "ExperimentStateLabel": word(r), "ExperimentStateLabelUnixNano": r.Range(0, 1<<40),
 			"ExternalTriggerFilename": word(r), "DataDropFilename": word(r)})
@@ -235,7 +254,11 @@ func genHist(r *lib.Rng, id int64, tier string, withSaves bool) Case {
 					pool = append(pool, o)
 					c.Ops = append(c.Ops, o)
 				}
-				c.Ops = append(c.Ops, Op{Op: "W"})
+				if r.Chance(1, 3) {
+					c.Ops = append(c.Ops, Op{Op: "SAQ"}) // waits for the save, too
+				} else {
+					c.Ops = append(c.Ops, Op{Op: "W"})
+				}
 				waits++
 				if r.Chance(1, 3) {
 					c.Ops = append(c.Ops, Op{Op: "R"})
@@ -272,6 +295,11 @@ func genDirect(r *lib.Rng, id int64, tier string) Case {
 			c.Ops = append(c.Ops, o)
 		} else {
 			c.Ops = append(c.Ops, Op{Op: "S"})
+			if r.Chance(1, 4) {
+				// killed at some point of this save, started again: the run goes on from what was left
+				c.Ops = append(c.Ops, Op{Op: "K", N: int64(r.Intn(6))})
+				pool = nil
+			}
 		}
 	}
 	c.Ops = append(c.Ops, Op{Op: "S"})
@@ -320,6 +348,30 @@ func corpus() []Case {
 			Ops: []Op{{Op: "U", Tag: "STATELABEL", Val: raw("new")}, {Op: "S"}, {Op: "S"}}},
 		{Mode: "direct", Dir: dirSpec{Init: map[string]OpVal{"STATELABEL": {Val: raw("old")}}, BakIsDir: true},
 			Ops: []Op{{Op: "U", Tag: "STATELABEL", Val: raw("new")}, {Op: "S"}, {Op: "S"}}},
+		// killed at every point of a save in turn; after each restart new values, a save, and a second dastard
+		// started on the result must report the new values
+		{Mode: "direct", Dir: dirSpec{Init: map[string]OpVal{"STATELABEL": {Val: raw("old")}}},
+			Ops: []Op{
+				{Op: "U", Tag: "STATUS", Typed: true, Val: st(1000, 250)}, {Op: "S"}, {Op: "K", N: 2},
+				{Op: "U", Tag: "STATUS", Typed: true, Val: st(2000, 500)}, {Op: "S"}, {Op: "R"}, {Op: "K", N: 3},
+				{Op: "U", Tag: "STATUS", Typed: true, Val: st(3000, 750)}, {Op: "S"}, {Op: "R"}, {Op: "K", N: 4},
+				{Op: "U", Tag: "STATUS", Typed: true, Val: st(4000, 100)}, {Op: "S"}, {Op: "R"}, {Op: "K", N: 1},
+				{Op: "U", Tag: "WRITING", Typed: true, Val: raw(map[string]interface{}{"BasePath": ""})}, {Op: "S"}, {Op: "K", N: 5},
+				{Op: "S"}, {Op: "R"}}},
+		// values that look like "missing": unwrapping off with a zero reset interval, empty lists, empty base path
+		{Mode: "direct", Ops: []Op{
+			{Op: "U", Tag: "ABACO", Typed: true, Val: raw(dastard.AbacoSourceConfig{ActiveCards: []int{}, AvailableCards: []int{}, HostPortUDP: []string{},
+				AbacoUnwrapOptions: dastard.AbacoUnwrapOptions{InvertChan: []int{}}})},
+			{Op: "U", Tag: "ROACH", Typed: true, Val: raw(dastard.RoachSourceConfig{HostPort: []string{}, Rates: []float64{},
+				AbacoUnwrapOptions: dastard.AbacoUnwrapOptions{RescaleRaw: true, InvertChan: []int{}}})},
+			{Op: "U", Tag: "WRITING", Typed: true, Val: raw(map[string]interface{}{"BasePath": ""})},
+			{Op: "U", Tag: "TRIGGER", Typed: true, Val: raw([]dastard.FullTriggerState{{ChannelIndices: []int{0, 1, 2}}})},
+			{Op: "U", Tag: "LANCERO", Typed: true, Val: raw(dastard.LanceroSourceConfig{CardDelay: []int{}, ActiveCards: []int{},
+				DastardOutput: dastard.LanceroDastardOutputJSON{AvailableCards: []int{}}})},
+			{Op: "S"}, {Op: "R"}}},
+		// SendAllStatus through the real RPC method while the updater is busy saving and its queue is full
+		{Mode: "hist", Ops: append(append(all(), Op{Op: "U", Tag: "ALIVE", Val: raw(7)}, Op{Op: "SAQ"}),
+			Op{Op: "U", Tag: "STATELABEL", Val: raw("after")}, Op{Op: "SAQ"}, Op{Op: "SA"})},
 		// SENDALL: nothing yet; repeats; unchanged values; events and comment keys; volatile topics
 		{Mode: "hist", Ops: []Op{{Op: "SA"},
 			{Op: "U", Tag: "STATUS", Typed: true, Val: st(1000, 250)}, {Op: "U", Tag: "STATUS", Typed: true, Val: st(1000, 250)},
